@@ -6,13 +6,15 @@ PROP = dict(
                        "no_panic (no send on a closed channel; quiescence reached)",
                        "stop_releases_workers (every cancelled worker returned and unsubscribed)",
                        "paused_takes_no_work / resume_wakes_all (a live worker is in the acknowledging send iff IsPaused)",
-                       "pause_reaches_all / resume_wakes_all (a round of Pause calls leaves the manager paused, a round of Resume calls unpaused)"]),
+                       "pause_reaches_all / resume_wakes_all (a round of Pause calls leaves the manager paused, a round of Resume calls unpaused)",
+                       "no_panic: no PauseCh is ever closed (Pause may still be about to send on it)"]),
         dict(driver="pauseconc", binary="zpause", quick=1200, thorough=20000, shard=400,
              monitors=["calls_complete (no Pause/Resume call in progress once nothing moves)",
                        "no_panic (no send on a closed channel; quiescence reached)",
                        "stop_releases_workers (every cancelled worker returned and unsubscribed)",
                        "paused_takes_no_work / resume_wakes_all (a live worker is in the acknowledging send iff IsPaused)",
-                       "pause_reaches_all / resume_wakes_all (a round of Pause calls leaves the manager paused, a round of Resume calls unpaused)"]),
+                       "pause_reaches_all / resume_wakes_all (a round of Pause calls leaves the manager paused, a round of Resume calls unpaused)",
+                       "no_panic: no PauseCh is ever closed (Pause may still be about to send on it)"]),
     ],
     partial="The population of subscribers is fixed in the model (the stages subscribe at start-up, before any pause; a subscriber that joins "
             "while paused gets no token and is waited for by the next Resume - not modelled). 'Blocked forever' is stated without fairness: "
